@@ -425,7 +425,24 @@ func baseTree(r *run.Rng) model.Tree {
 		g := &gen.G{R: r, Cfg: gen.NewCfg(r, gen.DSmall)}
 		x := g.Rich(2)
 		t, _ := model.FromGeom(x)
-		return model.SetZM(r, t, t.CT, model.ValueOpts{Simple: true}, false)
+		t = model.SetZM(r, t, t.CT, model.ValueOpts{Simple: true}, false)
+		if r.Chance(1, 3) {
+			// repeated consecutive vertices (also at the start / closing point of rings) are
+			// legal and make ring-rotation matching ambiguous
+			for n := r.Range(1, 2); n > 0; n-- {
+				ps := nodesOfType(t, func(n model.Tree, _ *model.Tree) bool { return n.Type == geom.TypeLineString && len(n.Coords) > 0 })
+				if len(ps) == 0 {
+					break
+				}
+				nd := at(&t, ps[r.Intn(len(ps))])
+				d := nd.CT.Dimension()
+				cnt := len(nd.Coords) / d
+				i := []int{0, cnt - 1, r.Intn(cnt)}[r.Intn(3)]
+				tup := append([]float64(nil), nd.Coords[i*d:i*d+d]...)
+				nd.Coords = append(nd.Coords[:i*d+d], append(tup, nd.Coords[i*d+d:]...)...)
+			}
+		}
+		return t
 	}
 	typ := model.Types[r.Intn(7)]
 	ct := model.CTypes[r.Intn(4)]
